@@ -170,17 +170,23 @@ class Shrinker:
                 continue
             fault_keys = {f["key"] for f in self.best.get("faults", []) if f["op"] == op["id"]}
 
-            def test(keys, idx=idx):
-                if not keys:
+            ov = op.get("val") or [None] * len(op["keys"])
+            pairs = list(zip(op["keys"], ov + [None] * (len(op["keys"]) - len(ov))))
+
+            def build(ps, idx=idx):
+                c = _clone(self.best)
+                c["ops"][idx]["keys"] = [k for k, _ in ps]
+                if op.get("val"):
+                    c["ops"][idx]["val"] = [v for _, v in ps]
+                return c
+
+            def test(ps, idx=idx):
+                if not ps:
                     return False
-                c = _clone(self.best)
-                c["ops"][idx]["keys"] = keys
-                return self._fails(c)
-            keys = ddmin(op["keys"], test)
-            if keys and keys != op["keys"]:
-                c = _clone(self.best)
-                c["ops"][idx]["keys"] = keys
-                self.best = c
+                return self._fails(build(ps))
+            ps = ddmin(pairs, test)
+            if ps and len(ps) != len(pairs):
+                self.best = build(ps)
         # zero the think times
         c = _clone(self.best)
         for op in c["ops"]:
